@@ -204,6 +204,32 @@ def replay_rank(chk, h, rnd, max_k):
         chk.violation(f'retrieval:function-api:exception:{type(e).__name__}', f'[{desc}] {m}: {e!r}', ctx)
 
 
+def replay_topk_classification(chk, h, max_k):
+  """TopKConfusionMatrixAggFn (classification at cut-off k, micro and macro) against the per-class counts of the batch."""
+  import numpy as np
+  from ml_metrics._src.aggregates import classification as agg
+  ex = h['examples']
+  y_true = [sorted(e['t']) for e in ex]
+  y_pred = [list(e['p']) for e in ex]
+  vocab = {1: 0, 2: 1, 3: 2, 4: 3}
+  desc = f'y_true={y_true} y_pred={y_pred}'
+  for k_list in ([1, 2], list(range(1, max_k + 1))):
+    for avg in ('micro', 'macro'):
+      want = {m: [float(frac(h['topk'][k - 1][f'{avg}_{m}'])) for k in k_list] for m in ('precision', 'recall')}
+      ctx = dict(kind='topk-classification', y_true=y_true, y_pred=y_pred, k_list=k_list, average=avg)
+      try:
+        got = agg.TopKConfusionMatrixAggFn(metrics=['precision', 'recall'], k_list=k_list, input_type='multiclass-multioutput',
+                                           average=avg, vocab=vocab)(y_true, y_pred)
+      except Exception as e:  # pylint: disable=broad-exception-caught
+        chk.violation(f'topk-classification:exception:{avg}:{type(e).__name__}', f'[{desc} k_list={k_list}] {e!r}', ctx)
+        continue
+      for m in ('precision', 'recall'):
+        g = [float(x) for x in np.asarray(got[m]).reshape(-1)]
+        if len(g) != len(k_list) or any(not close(a, b) for a, b in zip(g, want[m])):
+          chk.violation(f'topk-classification:{avg}:{m}', f'[{desc} k_list={k_list}] {m} = {g}, definition gives {want[m]}', ctx)
+          break
+
+
 # ---------------------------------------------------------------- statistics
 def replay_stats(chk, h, consts):
   import numpy as np
@@ -361,6 +387,7 @@ def body(chk):
   hs = hs + [h for h in sim.histories if len(h['examples']) > 1]
   for h in hs:
     replay_rank(chk, h, rnd, max_k)
+    replay_topk_classification(chk, h, max_k)
     chk.replayed()
   chk.count('ranking_batches', len(hs))
   # 3. rolling statistics
